@@ -20,7 +20,7 @@ ANCHORS = ["State.__eq__", "Lanelet.__eq__", "Obstacle.__eq__", "Obstacle.__hash
            "Scenario.__eq__", "Rectangle.__eq__", "GoalRegion.__eq__", "TrajectoryPrediction.__eq__",
            "TrafficSign.__eq__", "Intersection.__eq__"]
 REQUIRED = ["law.reflexive", "law.deepcopy", "law.symmetric", "law.twin", "law.perturbation", "law.hash-total",
-            "law.hash-consistent", "defaults-instance", "law.kwargs-order", "law.cross-class-state", "law.optional-subsets",
+            "law.hash-consistent", "defaults-instance", "law.kwargs-order", "law.cross-class-state", "law.optional-subsets", "law.derived-attribute-twin",
             "class.Polygon.large", "class.Lanelet.large"]
 ASSUMPTIONS = ["perturbations are clearly different valid values (never a reordering or a duplicate)",
                "real perturbations are >= 1e-6, i.e. far above the documented 1e-10 resolution"]
@@ -621,6 +621,37 @@ def run(ctx):
                             h2 = safe(hash, cz[1])
                             if h2[0] == "ok" and h2[1] != hz[1]:
                                 V("equal-but-hash-differs/" + what[0], "deepcopy", what[1])
+        # L4d a custom state that stores a DERIVED quantity of a typed state (e.g. the heading of a point-mass state) in
+        # place of one of the stored attributes: whatever the verdict, it is the same in both directions, and equal
+        # objects hash equally
+        if hasattr(x, "attributes") and hasattr(x, "time_step") and not use_defaults and type(x).__name__ != "CustomState":
+            import commonroad.scenario.state as st_
+            stored = list(x.attributes)
+            derived = [n_ for n_ in dir(type(x)) if isinstance(getattr(type(x), n_, None), property)
+                       and n_ not in stored and not n_.startswith("_")
+                       and n_ not in ("attributes", "used_attributes", "is_uncertain_position", "is_uncertain_orientation")]
+            for dn in derived:
+                dv = safe(getattr, x, dn)
+                if dv[0] != "ok" or dv[1] is None or isinstance(dv[1], (list, dict, set)):
+                    continue
+                for drop in [a_ for a_ in stored if a_ not in ("time_step", "position")][:2]:
+                    kw_ = {a_: getattr(x, a_) for a_ in stored if a_ != drop}
+                    kw_[dn] = dv[1]
+                    cs = safe(lambda: st_.CustomState(**kw_))
+                    if cs[0] != "ok":
+                        continue
+                    ctx.feature("law.derived-attribute-twin")
+                    ctx.evaluation()
+                    r = eq_ops(x, cs[1])
+                    if r[0] == "exc":
+                        V("eq-raises-%s" % type(r[1]).__name__, "typed state vs custom state storing %s" % dn)
+                    elif r[1][0] != r[1][1]:
+                        V("not-symmetric", "typed state vs custom state storing derived %s instead of %s: x==y %s, y==x %s"
+                          % (dn, drop, r[1][0], r[1][1]), dn)
+                    elif r[1][0] and h[0] == "ok":
+                        h2 = safe(hash, cs[1])
+                        if h2[0] == "ok" and h2[1] != h[1]:
+                            V("equal-but-hash-differs", "custom-state-storing-derived-%s" % dn)
         # L5 single perturbations (populated instances only: for the all-defaults instance the harness does not know
         # which values differ from the constructor defaults, so only reflexivity / deepcopy / hash laws are judged)
         if use_defaults:
